@@ -965,3 +965,6 @@ RULE += (' Added: FillRequest(run element, yield_on_remainder=True) also with bu
          'buffer_output; a table of further lazy elements (RunningChunkBy, Reverse, accumulators '
          'through the Run adapter, FillRequest, Zip ...) for which nothing may be pulled before the '
          'first next(); a Split fill/compute branch that stops reading in front of an infinite flow.')
+RULE += (' Added: two runs of one pipeline object (stateless elements, no Split sharing its '
+         'buffer) alive at the same time over two probes and consumed alternately: each yields '
+         'what the lazy reference yields and has pulled no more than it.')
